@@ -18,6 +18,23 @@ class StringLiteralInit:
         }
 
 
+@contract("json_to_models/dynamic_typing/complex.py::StringLiteral.__eq__", props=["C07", "C01", "C02"])
+class StringLiteralEq:
+    """C07 / C01: two literal types are equal exactly when they are the same kind of node with the SAME set of strings (merge_field_sets
+    skips a field whose type 'is equal' to the collected one: anything weaker than set equality - a subset test, say - loses observed
+    strings and makes the result depend on sample order)."""
+    sorts = {"_literals": "set", "_literals[]": "str", "result": "bool"}
+
+    def requires(self, other):
+        return {"other_literals_is_a_set": implies(ty_is(other, StringLiteral), ty_is(attr_of(other, "_literals"), set) or ty_is(attr_of(other, "_literals"), frozenset))}
+
+    def ensures(self, other, result):
+        return {
+            "equal_only_to_literal_nodes": implies(result, ty_is(other, StringLiteral)),
+            "equal_iff_same_strings": implies(ty_is(other, StringLiteral) and ty_is(self, StringLiteral), result == set_eq(self._literals, attr_set(other, "_literals"))),
+        }
+
+
 @contract("json_to_models/dynamic_typing/base.py::BaseType.get_options_for_type", props=["C10", "C04"])
 class GetOptionsForType:
     """first class of mro(type of t) that has an entry in types_style, else {}"""
